@@ -107,6 +107,38 @@ structure LoopSt where
   n : Int
   keys : List Key
 
+/-- one iteration of the `for cursor` loop of `joiner.readAtOffset` (`rec` = the recursive call
+    made inside the errgroup goroutine) -/
+def rdStep (getc : Key → Option Bytes) (C refLen : Nat)
+    (rec : Bytes → Int → Int → Int → Int → Except WalkErr (Int × List Key))
+    (data : Bytes) (subTrieSize : Int) (acc : Except WalkErr LoopSt) (cursor : Nat) : Except WalkErr LoopSt :=
+  match acc with
+  | .error e => .error e
+  | .ok st =>
+    if st.toRead = 0 then .ok st
+    else
+      let sec := subtrieSection C refLen data.length cursor subTrieSize
+      if st.cur + sec < st.off then .ok { st with cur := st.cur + sec }
+      else if cursor + refLen > data.length then .error .unmodelled     -- slice beyond len (cap-dependent)
+      else
+        let address := (data.drop cursor).take refLen
+        let crs0 := sec - (st.off - st.cur)
+        let crs1 := if crs0 > st.toRead then st.toRead else crs0
+        let crs := if crs1 > sec then sec else crs1
+        match getc address with
+        | none => .error .notFound
+        | some ch =>
+          if ch.length < 8 then .error .unmodelled
+          else
+            let span' := spanOf ch
+            if span' > sec then .error .malformed
+            else
+              match rec (ch.drop 8) st.cur span' st.off crs with
+              | .error e => .error e
+              | .ok (n', ks) =>
+                .ok { cur := st.cur + sec, off := st.cur + sec, toRead := st.toRead - crs,
+                      n := st.n + n', keys := st.keys ++ address :: ks }
+
 /-- `joiner.readAtOffset`: returns the number of bytes delivered and the keys fetched. -/
 def readAtOffset (getc : Key → Option Bytes) (C refLen : Nat) :
     Nat → Bytes → Int → Int → Int → Int → Except WalkErr (Int × List Key)
@@ -120,37 +152,13 @@ def readAtOffset (getc : Key → Option Bytes) (C refLen : Nat) :
         .ok (if bytesToRead > lenToCopy then lenToCopy else bytesToRead, [])
     else
       let cursors := (List.range ((data.length + refLen - 1) / refLen)).map (· * refLen)
-      let r := cursors.foldl (init := (Except.ok { cur := cur, off := off, toRead := bytesToRead, n := 0, keys := [] } : Except WalkErr LoopSt))
-        fun acc cursor =>
-          match acc with
-          | .error e => .error e
-          | .ok st =>
-            if st.toRead = 0 then .ok st
-            else
-              let sec := subtrieSection C refLen data.length cursor subTrieSize
-              if st.cur + sec < st.off then .ok { st with cur := st.cur + sec }
-              else if cursor + refLen > data.length then .error .unmodelled     -- slice beyond len (cap-dependent)
-              else
-                let address := (data.drop cursor).take refLen
-                let crs0 := sec - (st.off - st.cur)
-                let crs1 := if crs0 > st.toRead then st.toRead else crs0
-                let crs := if crs1 > sec then sec else crs1
-                match getc address with
-                | none => .error .notFound
-                | some ch =>
-                  if ch.length < 8 then .error .unmodelled
-                  else
-                    let span' := spanOf ch
-                    if span' > sec then .error .malformed
-                    else
-                      match readAtOffset getc C refLen f (ch.drop 8) st.cur span' st.off crs with
-                      | .error e => .error e
-                      | .ok (n', ks) =>
-                        .ok { cur := st.cur + sec, off := st.cur + sec, toRead := st.toRead - crs,
-                              n := st.n + n', keys := st.keys ++ address :: ks }
-      match r with
+      match cursors.foldl (rdStep getc C refLen (readAtOffset getc C refLen f) data subTrieSize)
+          (.ok { cur := cur, off := off, toRead := bytesToRead, n := 0, keys := [] }) with
       | .error e => .error e
       | .ok st => .ok (st.n, st.keys)
+
+/-- `readLen` of `ReadAt`: `min(cap(buffer) = C, span - off)` -/
+def readLenOf (C : Nat) (span off : Int) : Int := if (C : Int) > span - off then span - off else (C : Int)
 
 /-- `file.JoinReadAll` over `joiner.Read`: one `ReadAt` per `C` bytes of the span. -/
 def readAllLoop (getc : Key → Option Bytes) (C refLen : Nat) (rootData : Bytes) (span : Int) :
@@ -160,8 +168,7 @@ def readAllLoop (getc : Key → Option Bytes) (C refLen : Nat) (rootData : Bytes
     if i < span then
       if off ≥ span then .error .short            -- ReadAt: io.EOF
       else
-        let readLen := if (C : Int) > span - off then span - off else (C : Int)
-        match readAtOffset getc C refLen 16 rootData 0 span off readLen with
+        match readAtOffset getc C refLen 16 rootData 0 span off (readLenOf C span off) with
         | .error e => .error e
         | .ok (n, ks) => readAllLoop getc C refLen rootData span f (i + C) (off + n) (total + n) (keys ++ ks)
     else if total ≠ span then .error .short       -- "received only %d of %d total bytes"
